@@ -339,11 +339,11 @@ const cookieSecret32 = "0123456789abcdef0123456789abcdef"
 
 // ProxyCfg describes one proxy configuration.
 type ProxyCfg struct {
-	Flags     []string
-	Alpha     string // alpha config YAML (optional)
-	Mutate    func(o *options.Options)
-	Redis     *world.Redis
-	NoBase    bool
+	Flags  []string
+	Alpha  string // alpha config YAML (optional)
+	Mutate func(o *options.Options)
+	Redis  *world.Redis
+	NoBase bool
 }
 
 // Proxy is a built proxy plus the handles the harness needs.
